@@ -4,13 +4,14 @@
 set -e
 export GOFLAGS=-mod=mod GOPROXY=off GOSUMDB=off GOTOOLCHAIN=local
 OUT="$1"; shift
+HERE="$(cd "$(dirname "$0")" && pwd)"
 REPO="${VERIF_REPO:-/repo}"
 OV="$(mktemp /dev/shm/verif-ov.XXXXXX.json 2>/dev/null || mktemp)"
-python3 - "$REPO" > "$OV" <<'PY'
+python3 - "$REPO" "$HERE" > "$OV" <<'PY'
 import json,os,sys,glob
-repo=sys.argv[1]
+repo=sys.argv[1]; here=sys.argv[2]
 rep={}
-for f in sorted(glob.glob('/verif/harness/*.go')):
+for f in sorted(glob.glob(here+'/harness/*.go')):
     rep[os.path.join(repo,'fhirpath/zz_verifharness',os.path.basename(f))]=f
 print(json.dumps({"Replace":rep}))
 PY
